@@ -31,6 +31,17 @@ KEY_MIXPP = 'Cache2D_mod.mixture_point_pos:rho-is-None'
 KEY_MIXSYM = 'Cache2D_mod.mixture_symmetric_point_pos:wrong-parameter-vector'
 
 PDF1 = ['exponential', 'gamma', 'lognormal', 'beta']
+# asymmetric bivariate pdfs, narrow and/or strongly deleterious (mass outside the cached range, both signs of rho), whose density at the
+# off-diagonal points of the symmetry probe (0.01, 1, 100) is far below 1e-8: the shortcut decision rests on atol=0 there
+ASYM_NARROW = [('biv_lognormal', [6.0, 6.5, 0.5, 0.5, 0.25]), ('biv_lognormal', [6.5, 5.75, 0.375, 0.625, -0.5]),
+               ('biv_lognormal', [0.5, -0.5, 0.5, 1.0, -0.75]), ('biv_lognormal', [5.0, 6.0, 0.5, 0.75, 0.5]),
+               ('biv_lognormal', [6.0, -1.5, 0.5, 0.25, -0.5]), ('biv_lognormal', [3.0, 4.0, 0.5, 0.5, 0.75]),
+               ('biv_ind_gamma', [20.0, 30.0, 20.0, 25.0]), ('biv_ind_gamma', [16.0, 24.0, 8.0, 16.0, 0.5]),
+               ('biv_ind_gamma', [24.0, 16.0, 0.25, 16.0]), ('biv_ind_gamma', [12.0, 20.0, 2.0, 1.0])]
+# those of them whose mass outside a (0.5, 256) grid sits in the lethal tail of one axis and the neutral tail / grid of the other, so that the
+# total weight (which lacks the lethal x lethal corner) is still ~1: observed 0.9964 .. 1.0089 on 40 points
+ASYM_TOTAL_ONE = [('biv_lognormal', [6.0, -1.5, 0.5, 0.25, -0.5]), ('biv_lognormal', [0.5, -0.5, 0.5, 1.0, -0.75]),
+                  ('biv_ind_gamma', [24.0, 16.0, 0.25, 16.0]), ('biv_ind_gamma', [16.0, 24.0, 8.0, 16.0, 0.5])]
 FN = {'int1': 'Cache1D.integrate', 'pp1': 'Cache1D.integrate_point_pos', 'int2': 'Cache2D.integrate', 'pp2': 'Cache2D.integrate_point_pos',
       'sympp2': 'Cache2D.integrate_symmetric_point_pos', 'mix': 'DFE.mixture', 'mixsym': 'DFE.mixture_symmetric_point_pos',
       'mixpp': 'Cache2D_mod.mixture_point_pos', 'vourlaki': 'DFE.Vourlaki_mixture'}
@@ -180,6 +191,8 @@ def gen_scenarios(ctx):
                 with_lin(sc, op='int2', pdf2=name, params=pr, ext=True)
                 if rng.random() < 0.4:
                     add(sc, op='int2', pdf2=name, params=pr, ext=False, theta=thetas(rng))
+        for name, pra in rng.sample(ASYM_NARROW, ctx.pick(2, 4)):
+            with_lin(sc, op='int2', pdf2=name, params=list(pra), ext=True)
         pr = pdf2_params(rng, 'biv_lognormal', True)
         p1, p2 = dy(rng, 0.125, 0.5), dy(rng, 0.125, 0.5)
         rho = rng.choice([0.0, 0.25, 0.5, 1.0])
@@ -202,6 +215,12 @@ def gen_scenarios(ctx):
         add(sc, op='int2', pdf2='biv_ind_gamma', params=[1.5, 4.0], ext=True, theta=2.0)
         if not ctx.quick:
             add(sc, op='int2', pdf2='biv_lognormal', params=[1.0, 1.0, 0.5], ext=True, theta=2.0)
+
+    # asymmetric narrow pdfs with most of their mass in a tail, selection-free: total weight ~1 only if gamma2's own tails are used
+    sc = new(c2={'kind': 'const', 'c': [0.5, 0, 0, 0, 0.25]}, ns=[2, 2], pts=[4], gamma_bounds=[0.5, 256.0], gamma_pts=40,
+             additional_gammas=[], family='2d-fine-asym', selfree=True, total_one=2.5e-2)
+    for name, pra in (ASYM_TOTAL_ONE[::2] if ctx.quick and rng.random() < 0.5 else ASYM_TOTAL_ONE[1::2] if ctx.quick else ASYM_TOTAL_ONE):
+        add(sc, op='int2', pdf2=name, params=list(pra), ext=True, theta=2.0)
 
     # ---- C: mixtures (two-population spectra in both caches)
     n3 = ctx.pick(3, 16)
@@ -246,6 +265,11 @@ def gen_scenarios(ctx):
 
 def trapz(ys, xs):
     return sum((xs[i + 1] - xs[i]) * (ys[i + 1] + ys[i]) / 2.0 for i in range(len(xs) - 1))
+
+def allclose_T(T, atol, rtol):
+    """numpy.allclose(T, T.T, atol, rtol) on a nested list"""
+    n = len(T)
+    return all(abs(T[i][j] - T[j][i]) <= atol + rtol * abs(T[j][i]) for i in range(n) for j in range(n))
 
 def close(a, bb, scale, tol=FTOL):
     return abs(a - bb) <= tol * max(scale, 1e-300)
@@ -457,7 +481,8 @@ def scenarios(ctx):
         c1_init, c2 = r.get('c1'), r.get('c2')
         c1 = c1_init
         shape = (c1 or c2)['shape']
-        body = [HEADER]
+        body = [HEADER]          # header + cache definitions (shared by every shard of this scenario)
+        caselines = []           # (case id, definition)
         kdefs = 0
         body.append('Definition K1_0 := %s.' % k1_text(c1))
         body.append('Definition K2 := %s.' % k2_text(c2))
@@ -477,6 +502,9 @@ def scenarios(ctx):
                 c1 = rec['before1']; kdefs += 1; cur = 'K1_%d' % kdefs
                 body.append('Definition %s := %s.' % (cur, k1_text(c1)))
             t = parse_records(rec, c1, c2)
+            for _, T in t.test2:
+                if allclose_T(T, 0.0, 1e-12) != allclose_T(T, 1e-8, 1e-12):
+                    ctx.count('symmetry probe decided by atol=0 (asymmetric pdf, density < 1e-8 at the probe points)')
             bad = check_limits(ctx, sc, op, t, c1, c2)
             ctx.obligation('sc %d op %d (%s): pdf evaluated on the cached grid, tails integrated over the documented regions' % (sc['id'], k, op['op']),
                            not bad, 'correspondence', '; '.join(bad[:3]))
@@ -504,17 +532,20 @@ def scenarios(ctx):
                     texts = []
                     ctx.count('oracle values not finite')
                 for variant, otext in texts:
-                    body.append('Definition case_%d := {| d_op := %s; d_tab := %s; d_sq := %s; d_k1 := %s; d_k2 := K2; d_ents := %s; d_impl := %s |}.' % (
-                        cid, otext, tt, q(sq), cur, lib.natl(ents), impl))
+                    caselines.append((cid, 'Definition case_%d := {| d_op := %s; d_tab := %s; d_sq := %s; d_k1 := %s; d_k2 := K2; d_ents := %s; d_impl := %s |}.' % (
+                        cid, otext, tt, q(sq), cur, lib.natl(ents), impl)))
                     ids.append(cid); meta[cid] = (sc, op, variant, rec)
                     cid += 1
             if 'after1' in rec and rec['after1'] != c1:
                 c1 = rec['after1']; kdefs += 1; cur = 'K1_%d' % kdefs
                 body.append('Definition %s := %s.' % (cur, k1_text(c1)))
-        if ids:
-            body.append('Definition results := map (fun p => (fst p, dcheck %s (snd p))) [%s].' % (q(TOL), '; '.join('(%d%%Z, case_%d)' % (i, i) for i in ids)))
-            body.append('Eval vm_compute in results.')
-            files.append(('C17_sc_%d' % sc['id'], '\n'.join(body) + '\n'))
+        SH = 10                  # cases per file: the files run 16-way in parallel
+        for k0 in range(0, len(caselines), SH):
+            chunk = caselines[k0:k0 + SH]
+            text = body + [d for _, d in chunk]
+            text.append('Definition results := map (fun p => (fst p, dcheck %s (snd p))) [%s].' % (q(TOL), '; '.join('(%d%%Z, case_%d)' % (i, i) for i, _ in chunk)))
+            text.append('Eval vm_compute in results.')
+            files.append(('C17_sc_%d_%d' % (sc['id'], k0 // SH), '\n'.join(text) + '\n'))
         predicates(ctx, sc, r, results, violation)
     out = lib.run_case_files(files, timeout=900)
     # a case file that did not compile (killed under memory pressure, timeout) is retried once, alone
@@ -553,6 +584,10 @@ def scenarios(ctx):
                 ctx.notes.append('%s: source agrees with the %s model variant' % (nm, 'repaired' if assign[s] else 'snapshot (defective)'))
                 ctx.count('variant %s=%s' % (nm, 'repaired' if assign[s] else 'snapshot'))
     ctx.obligation('one model variant (snapshot / repaired per function) reproduces every operation', bool(feasible), 'correspondence')
+    if not ctx.replay:
+        nprobe = ctx.stats.get('symmetry probe decided by atol=0 (asymmetric pdf, density < 1e-8 at the probe points)', 0)
+        ctx.obligation('generator covered the symmetric-shortcut decision where only atol=0 separates an asymmetric pdf from a symmetric one (%d integrations, >= 6 required)' % nprobe,
+                       nprobe >= 6, 'correspondence')
     nbad = 0
     for gk, lst in sorted(groups.items()):
         sc, op, _, rec = meta[lst[0][1]]
